@@ -564,7 +564,9 @@ def oracle(ops, outs):
             except Bad as e:
                 valid = False
                 why = str(e)
-            if out.startswith("ok"):
+            if out.startswith("ok MISMATCH"):
+                bad.append((i, f"frame:{out.split()[2]}:size", f"{op}: the frame type and the Frame enum announce different sizes: {out}"))
+            elif out.startswith("ok"):
                 ty, render, consumed, enc, size = parse_ok(out)
                 if not valid:
                     bad.append((i, f"frame:accepts-invalid:{first_type(b)}", f"{op}: RFC 9000 §19 rejects this input ({why}), implementation decoded {render}"))
